@@ -190,7 +190,12 @@ class Message(BaseMessage):
 
         This is the reverse of str(msg).
         """
-        return cl(**str2msg(text))
+        msgdict = str2msg(text)
+        # Names taken from the text must be attributes of the message:
+        # anything else (skip_checks, self, ...) would be swallowed by the
+        # constructor's own parameters.
+        check_msgdict(msgdict)
+        return cl(**msgdict)
 
     def __len__(self):
         if self.type == 'sysex':
